@@ -57,14 +57,14 @@ fn unicode_label(input: Input<'_>) -> ParserResult<'_, &str> {
 fn exports(input: Input<'_>) -> ParserResult<'_, Exports> {
     skip_ws_and_comments(delimited(
         tag(EXPORTS),
-        skip_ws(alt((
+        skip_ws_and_comments(alt((
             value(Exports::All, tag(ALL)),
             into(separated_list1(
                 skip_ws_and_comments(char(COMMA)),
                 skip_ws_and_comments(alt((parameterized_identifier, identifier))),
             )),
         ))),
-        char(SEMICOLON),
+        skip_ws_and_comments(char(SEMICOLON)),
     ))
     .parse(input)
 }
